@@ -4,7 +4,7 @@
 
    The command is modelled as a finite decision table.  A configuration fixes
    the kind of the single OBJECT argument and every option the property
-   quantifies over (7*5*2*2*2*3*2 = 1680 configurations).  What the operating
+   quantifies over (10*5*2*2*2*3*2 = 2400 configurations).  What the operating
    system, urllib and dulwich answer for an argument of a given kind is
    tabulated ([is_dash], [isfile], [isdir], [islink], [has_scheme], [lstat],
    [stat], [is_git_repo]); [identify_gen] transcribes the control flow of the
@@ -15,7 +15,7 @@
 
    [spec] is written from the property statement and the command's help and
    messages, without looking at the control flow. *)
-From Coq Require Import List Bool.
+From Coq Require Import List Bool Arith.
 Import ListNotations.
 
 (* ------------------------------------------------------------------ *)
@@ -28,7 +28,10 @@ Inductive argkind :=
 | ALinkDir     (* a symbolic link to a directory *)
 | AStdin       (* the argument "-" *)
 | AUrl         (* a string with a URL scheme that is not an existing path *)
-| AGitRepo.    (* a directory that dulwich opens as a git repository *)
+| AGitRepo     (* a directory that dulwich opens as a git repository *)
+| AMissing     (* not "-", not an existing path, and urlparse finds no scheme ("", ":", "no/such/path", "-x") *)
+| ABadUrl      (* not an existing path, and urlparse itself raises ValueError ("https://[::1/x", "//[", NFKC netloc) *)
+| ARefusedUrl. (* has a scheme, not an existing path, but model.Origin(url) raises ValueError (>= 2048 bytes, not UTF-8) *)
 
 Inductive otype := TAuto | TContent | TDirectory | TOrigin | TSnapshot.   (* click.Choice of --type *)
 
@@ -59,9 +62,12 @@ Inductive obj :=
 | ODirAtPath         (* the directory at the path *)
 | ODirAtLinkTarget   (* the directory the link points to *)
 | OOrigin            (* the origin whose URL is the argument string *)
-| OSnapshot.         (* the snapshot of the git repository at the path *)
+| OSnapshot          (* the snapshot of the git repository at the path *)
+| ONothing           (* nothing: the argument designates no object (kinds AMissing, ABadUrl) *)
+| ORefusedOrigin.    (* an origin whose URL the library refuses: no identifier exists (kind ARefusedUrl) *)
 
-Inductive crash := CrTypeError | CrNotADirectory | CrFileNotFound | CrNotGitRepository.
+Inductive crash := CrTypeError | CrNotADirectory | CrFileNotFound | CrNotGitRepository | CrValueError.
+(* CrValueError: ValueError or a subclass of it (UnicodeEncodeError for a URL that is not valid UTF-8) *)
 
 Inductive outcome :=
 | Print (o : obj) (excluded shown listing : bool)
@@ -83,7 +89,11 @@ Definition isfile (k : argkind) : bool := match k with AFile | ALinkFile => true
 Definition isdir (k : argkind) : bool := match k with ADir | ALinkDir | AGitRepo => true | _ => false end.
 Definition islink (k : argkind) : bool := match k with ALinkFile | ALinkDir => true | _ => false end.
 (* urlparse(obj).scheme is non-empty *)
-Definition has_scheme (k : argkind) : bool := match k with AUrl => true | _ => false end.
+Definition has_scheme (k : argkind) : bool := match k with AUrl | ARefusedUrl => true | _ => false end.
+(* model.Origin(url=obj) raises ValueError (check_url: too long, or not encodable as UTF-8) *)
+Definition origin_refused (k : argkind) : bool := match k with ARefusedUrl => true | _ => false end.
+(* urlparse(obj) raises ValueError (malformed authority) *)
+Definition urlparse_raises (k : argkind) : bool := match k with ABadUrl => true | _ => false end.
 (* dulwich.repo.Repo(path) succeeds *)
 Definition is_git_repo (k : argkind) : bool := match k with AGitRepo => true | _ => false end.
 
@@ -100,7 +110,7 @@ Definition lstat (k : argkind) (p : pathref) : fskind :=
   | ALinkFile, PReal => FReg
   | ALinkDir, PArg => FLnk
   | ALinkDir, PReal => FDir
-  | AStdin, _ | AUrl, _ => FMissing
+  | AStdin, _ | AUrl, _ | AMissing, _ | ABadUrl, _ | ARefusedUrl, _ => FMissing
   end.
 
 (* os.stat(path) / os.scandir(path): links are followed *)
@@ -108,7 +118,7 @@ Definition stat (k : argkind) : fskind :=
   match k with
   | AFile | ALinkFile => FReg
   | ADir | ALinkDir | AGitRepo => FDir
-  | AStdin | AUrl => FMissing
+  | AStdin | AUrl | AMissing | ABadUrl | ARefusedUrl => FMissing
   end.
 
 (* ------------------------------------------------------------------ *)
@@ -157,6 +167,8 @@ Definition fs_object (c : cfg) : obj :=
   | ALinkDir => if deref c then ODirAtLinkTarget else OLinkText
   | AStdin => OStdin
   | AUrl => OOrigin
+  | AMissing | ABadUrl => ONothing
+  | ARefusedUrl => ORefusedOrigin
   end.
 
 Definition otype_eqb (a b : otype) : bool :=
@@ -185,15 +197,17 @@ Definition natural_type (o : obj) : otype :=
   | ODirAtPath | ODirAtLinkTarget => TDirectory
   | OOrigin => TOrigin
   | OSnapshot => TSnapshot
+  | ONothing => TAuto          (* no explicit type suits an argument that designates nothing *)
+  | ORefusedOrigin => TOrigin
   end.
 
 (* In scope: --type auto, or the type of the designated object.  Hence
    content for file, link->file, stdin and for ANY link with --no-dereference
    (the link itself is a content); directory for dir, link->dir with
    --dereference, git repository; origin for url; snapshot for git repository.
-   An explicit --type on "-" other than content, and "-t directory
-   --no-dereference <link>" (the link itself is not a directory) are out of
-   scope. *)
+   An explicit --type on "-" other than content, "-t directory
+   --no-dereference <link>" (the link itself is not a directory) and any
+   explicit type on an argument that designates nothing are out of scope. *)
 Definition in_scope (c : cfg) : bool :=
   otype_eqb (ty c) TAuto || otype_eqb (ty c) (natural_type (designated_obj c)).
 
@@ -204,7 +218,7 @@ Definition in_scope_literal (c : cfg) : bool :=
   | TAuto, _ => true
   | TContent, (AFile | ALinkFile | AStdin) => true
   | TDirectory, (ADir | ALinkDir) => true
-  | TOrigin, AUrl => true
+  | TOrigin, (AUrl | ARefusedUrl) => true
   | TSnapshot, AGitRepo => true
   | _, _ => false
   end.
@@ -212,20 +226,22 @@ Definition in_scope_literal (c : cfg) : bool :=
 (* ------------------------------------------------------------------ *)
 (* The code                                                            *)
 
-(* Four behaviours of the code that were repaired in /repo; each is kept as a
+(* Five behaviours of the code that were repaired in /repo; each is kept as a
    switch so that the old code is available as a mutant of the model: *)
 Record variant := mkVariant {
   v_realpath_str : bool;   (* OLD: path = os.path.realpath(obj)  - a str, not the encoded path *)
   v_rectype_bug  : bool;   (* OLD: if not obj_type == ("auto" or "directory")  - i.e. obj_type != "auto" *)
   v_auto_follows : bool;   (* OLD: auto-detection by isfile/isdir only, which follow links *)
+  v_origin_uncaught : bool;(* OLD: swhid_of_origin(obj) outside any try: the library's ValueError for a refused URL escapes *)
   v_rec_follows  : bool    (* OLD: `if recursive and not os.path.isdir(objects[0])` - follows links whatever --no-dereference says *)
 }.
 
-Definition current : variant := mkVariant false false false false.
-Definition old_realpath : variant := mkVariant true false false false.
-Definition old_rectype : variant := mkVariant false true false false.
-Definition old_autolink : variant := mkVariant false false true false.
-Definition old_recfollows : variant := mkVariant false false false true.
+Definition current : variant := mkVariant false false false false false.
+Definition old_realpath : variant := mkVariant true false false false false.
+Definition old_rectype : variant := mkVariant false true false false false.
+Definition old_autolink : variant := mkVariant false false true false false.
+Definition old_originuncaught : variant := mkVariant false false false true false.
+Definition old_recfollows : variant := mkVariant false false false false true.
 
 Inductive res := ROk (o : obj) (excluded : bool) | RUsage | RCrash (c : crash).
 
@@ -241,8 +257,13 @@ Definition detect (v : variant) (c : cfg) : option otype :=
       if is_dash k || isfile k || (negb (v_auto_follows v) && negb (deref c) && islink k)
       then Some TContent
       else if isdir k then Some TDirectory
-      else if has_scheme k then Some TOrigin
-      else None
+      else
+        (* try: if urlparse(obj).scheme: origin else: raise ValueError
+           except ValueError: raise click.BadParameter  - the except clause also
+           catches the ValueError that urlparse itself raises *)
+        if urlparse_raises k then None
+        else if has_scheme k then Some TOrigin
+        else None
   | t => Some t
   end.
 
@@ -264,7 +285,10 @@ Definition identify_object (v : variant) (c : cfg) : res :=
             | TContent => lift (swhid_of_file k p) false
             | _ => lift (swhid_of_dir k tag (excl c)) (excl c)      (* exclude_patterns: empty tuple or non-empty set *)
             end
-        | TOrigin => ROk OOrigin false
+        | TOrigin =>
+            (* try: swhid_of_origin(obj) except ValueError: raise click.BadParameter("invalid origin URL") *)
+            if origin_refused k then (if v_origin_uncaught v then RCrash CrValueError else RUsage)
+            else ROk OOrigin false
         | TSnapshot => lift (swhid_of_git_repo k) false
         | TAuto => RUsage                                   (* "invalid object type"; unreachable *)
         end
@@ -274,7 +298,8 @@ Definition obj_eqb (a b : obj) : bool :=
   match a, b with
   | OPathContent, OPathContent | OLinkText, OLinkText | OTargetFile, OTargetFile
   | OEmptyContent, OEmptyContent | OStdin, OStdin | ODirAtPath, ODirAtPath
-  | ODirAtLinkTarget, ODirAtLinkTarget | OOrigin, OOrigin | OSnapshot, OSnapshot => true
+  | ODirAtLinkTarget, ODirAtLinkTarget | OOrigin, OOrigin | OSnapshot, OSnapshot | ONothing, ONothing
+  | ORefusedOrigin, ORefusedOrigin => true
   | _, _ => false
   end.
 
@@ -337,6 +362,7 @@ Definition identify_old_realpath : cfg -> outcome := identify_gen old_realpath.
 Definition identify_old_rectype : cfg -> outcome := identify_gen old_rectype.
 Definition identify_old_autolink : cfg -> outcome := identify_gen old_autolink.
 Definition identify_old_recfollows : cfg -> outcome := identify_gen old_recfollows.
+Definition identify_old_originuncaught : cfg -> outcome := identify_gen old_originuncaught.
 
 (* ------------------------------------------------------------------ *)
 (* The specification                                                   *)
@@ -349,10 +375,14 @@ Definition rec_effective (c : cfg) : bool := recur c && is_dir_obj (fs_object c)
 Definition type_is_auto_or_directory (t : otype) : bool :=
   match t with TAuto | TDirectory => true | _ => false end.
 
+Definition is_nothing_obj (o : obj) : bool := match o with ONothing | ORefusedOrigin => true | _ => false end.
+
 Definition spec (c : cfg) : outcome :=
   let (o, ex) := designated c in
+  (* what cannot be identified is a usage error ("cannot detect object type", "invalid origin URL") *)
+  if is_nothing_obj o then Usage
   (* only core SWHIDs can be given to --verify; an origin has none *)
-  if match ver c with VMatch => is_origin_obj o | _ => false end then Usage
+  else if match ver c with VMatch => is_origin_obj o | _ => false end then Usage
   else if rec_effective c then
     if has_verify c then Usage                                    (* "verification of recursive object identification is not supported" *)
     else if negb (type_is_auto_or_directory (ty c)) then Usage    (* "recursive identification is supported only for directories" *)
@@ -369,7 +399,8 @@ Definition spec (c : cfg) : outcome :=
    identifier of an origin can be verified. *)
 Definition spec_strict (c : cfg) : outcome :=
   let (o, ex) := designated c in
-  if recur c && has_verify c then Usage
+  if is_nothing_obj o then Usage
+  else if recur c && has_verify c then Usage
   else if recur c && negb (type_is_auto_or_directory (ty c)) then Usage
   else if recur c && is_dir_obj o then Print o ex (fname c) true
   else
@@ -403,10 +434,124 @@ Definition old_recfollows_class (c : cfg) : bool :=
   | _ => false
   end.
 
+(* swh identify [-t origin] <URL of 2048 bytes or more / not valid UTF-8>: the
+   library's ValueError was not caught *)
+Definition old_originuncaught_class (c : cfg) : bool :=
+  match arg c with ARefusedUrl => true | _ => false end.
+
+(* ------------------------------------------------------------------ *)
+(* Several OBJECTS in one invocation                                   *)
+
+(* The options of [c] (its [arg] is ignored) applied to a list of arguments.
+   What one invocation prints is a sequence of lines followed by the way it
+   ends; an error raised while the i-th argument is identified comes after the
+   lines of the arguments before it (the results are produced lazily). *)
+Definition with_arg (c : cfg) (k : argkind) : cfg :=
+  mkCfg k (ty c) (deref c) (fname c) (recur c) (ver c) (excl c).
+
+Definition line := (obj * bool * bool * bool)%type.     (* object, excluded, shown, listing *)
+Inductive mend := MDone | MUsageEnd | MExit0 | MExit1 | MCrashEnd (cr : crash).
+Inductive mout := MOut (printed : list line) (e : mend).
+
+(* `for obj, swhid in zip(objects, map(partial(identify_object, ...), objects)): click.echo(...)`:
+   every argument gets the SAME obj_type, follow_symlinks and exclude_patterns *)
+Fixpoint run_objects (v : variant) (c : cfg) (ks : list argkind) : list line * mend :=
+  match ks with
+  | [] => ([], MDone)
+  | k :: ks' =>
+      match identify_object v (with_arg c k) with
+      | ROk o ex => let (ls, e) := run_objects v c ks' in ((o, ex, fname c, false) :: ls, e)
+      | RUsage => ([], MUsageEnd)
+      | RCrash cr => ([], MCrashEnd cr)
+      end
+  end.
+
+Definition identify_many_gen (v : variant) (c : cfg) (ks : list argkind) : mout :=
+  match ks with
+  | [] => MOut [] MUsageEnd                                 (* click: missing argument OBJECTS *)
+  | k0 :: _ =>
+      let c0 := with_arg c k0 in
+      (* `if verify and len(objects) != 1` (or click refusing the --verify value before) *)
+      if has_verify c && negb (Nat.eqb (length ks) 1) then MOut [] MUsageEnd
+      else if negb (verify_param_ok c0) then MOut [] MUsageEnd
+      else
+        (* the test that disables --recursive looks at objects[0] only *)
+        let recursive := recur c && rec_isdir v c0 in
+        if recursive then
+          if has_verify c then MOut [] MUsageEnd
+          else if rectype_rejects v (ty c) then MOut [] MUsageEnd
+          else
+            (* model_of_dir(os.fsencode(objects[0]), ...): the other arguments are not looked at *)
+            match swhid_of_dir k0 PBytes (excl c) with
+            | inl o => MOut [(o, excl c, fname c, true)] MDone
+            | inr cr => MOut [] (MCrashEnd cr)
+            end
+        else if has_verify c then                           (* exactly one object: swhid = next(results)[1] *)
+          match identify_object v c0 with
+          | ROk o ex => MOut [] (if given_equals c0 o ex then MExit0 else MExit1)
+          | RUsage => MOut [] MUsageEnd
+          | RCrash cr => MOut [] (MCrashEnd cr)
+          end
+        else let (ls, e) := run_objects v c ks in MOut ls e
+  end.
+
+Definition identify_many : cfg -> list argkind -> mout := identify_many_gen current.
+
+(* one argument: the outcome of the one-argument table, as a run *)
+Definition embed (o : outcome) : mout :=
+  match o with
+  | Print ob ex sh ls => MOut [(ob, ex, sh, ls)] MDone
+  | Usage => MOut [] MUsageEnd
+  | Exit0 => MOut [] MExit0
+  | Exit1 => MOut [] MExit1
+  | Crash cr => MOut [] (MCrashEnd cr)
+  end.
+
+(* the arguments in order, each as if it were given alone; the first one that
+   does not print ends the run the way it would end alone *)
+Fixpoint spec_run (c : cfg) (ks : list argkind) : list line * mend :=
+  match ks with
+  | [] => ([], MDone)
+  | k :: ks' =>
+      match spec (with_arg c k) with
+      | Print ob ex sh ls => let (l, e) := spec_run c ks' in ((ob, ex, sh, ls) :: l, e)
+      | Usage => ([], MUsageEnd)
+      | Exit0 => ([], MExit0)
+      | Exit1 => ([], MExit1)
+      | Crash cr => ([], MCrashEnd cr)
+      end
+  end.
+
+(* Specification: one argument - the one-argument specification; several -
+   --verify is refused ("verification requires a single object"), otherwise
+   the lines that each argument would get if it were given alone, in the order
+   of the arguments, up to the first argument that cannot be identified (a
+   usage error, after the lines of the arguments before it). *)
+Definition spec_many (c : cfg) (ks : list argkind) : mout :=
+  match ks with
+  | [] => MOut [] MUsageEnd
+  | [k] => embed (spec (with_arg c k))
+  | _ => if has_verify c then MOut [] MUsageEnd
+         else let (l, e) := spec_run c ks in MOut l e
+  end.
+
+(* In scope: at least one argument, every argument in scope under the shared
+   options, and - with several arguments - no --recursive (the code applies -r
+   to the first argument only and says so nowhere; see
+   [many_recursive_first_only] in the proofs: kept outside the scope rather
+   than counted as a violation, the property's quantifier has one argument) *)
+Definition in_scope_many (c : cfg) (ks : list argkind) : bool :=
+  match ks with
+  | [] => false
+  | [k] => in_scope (with_arg c k)
+  | _ => forallb (fun k => in_scope (with_arg c k)) ks && negb (recur c)
+  end.
+
 (* ------------------------------------------------------------------ *)
 (* Enumeration                                                         *)
 
-Definition all_kinds : list argkind := [AFile; ADir; ALinkFile; ALinkDir; AStdin; AUrl; AGitRepo].
+Definition all_kinds : list argkind :=
+  [AFile; ADir; ALinkFile; ALinkDir; AStdin; AUrl; AGitRepo; AMissing; ABadUrl; ARefusedUrl].
 Definition all_types : list otype := [TAuto; TContent; TDirectory; TOrigin; TSnapshot].
 Definition all_bools : list bool := [true; false].
 Definition all_verifies : list verify := [VNone; VMatch; VNonMatch].
@@ -427,7 +572,7 @@ Definition all_cfgs : list cfg :=
 Definition crash_eqb (a b : crash) : bool :=
   match a, b with
   | CrTypeError, CrTypeError | CrNotADirectory, CrNotADirectory
-  | CrFileNotFound, CrFileNotFound | CrNotGitRepository, CrNotGitRepository => true
+  | CrFileNotFound, CrFileNotFound | CrNotGitRepository, CrNotGitRepository | CrValueError, CrValueError => true
   | _, _ => false
   end.
 
@@ -447,7 +592,7 @@ Definition nondefault (c : cfg) : nat :=
   + (if recur c then 1 else 0) + (if has_verify c then 1 else 0) + (if excl c then 1 else 0).
 
 (* ------------------------------------------------------------------ *)
-(* Examples (the four repaired behaviours)                              *)
+(* Examples (the repaired behaviours)                                   *)
 
 (* swh identify <link->dir> *)
 Example ex_linkdir_now : identify_model (mkCfg ALinkDir TAuto true true false VNone false)
@@ -476,5 +621,15 @@ Proof. vm_compute. reflexivity. Qed.
 Example ex_rec_noderef_old : identify_old_recfollows (mkCfg ALinkDir TAuto false true true VNone false)
                              = Print ODirAtLinkTarget false true true.
 Proof. vm_compute. reflexivity. Qed.
-Example ex_count : length all_cfgs = 1680.
+(* swh identify 'https://[2001:db8::1/repo.git'  /  swh identify no/such/path: usage error *)
+Example ex_badurl : identify_model (mkCfg ABadUrl TAuto true true false VNone false) = Usage.
+Proof. vm_compute. reflexivity. Qed.
+Example ex_missing : identify_model (mkCfg AMissing TAuto true true true VNonMatch true) = Usage.
+Proof. vm_compute. reflexivity. Qed.
+(* swh identify https://example.org/<2100 characters> *)
+Example ex_refused_now : identify_model (mkCfg ARefusedUrl TAuto true true false VNone false) = Usage.
+Proof. vm_compute. reflexivity. Qed.
+Example ex_refused_old : identify_old_originuncaught (mkCfg ARefusedUrl TOrigin true true false VNone false) = Crash CrValueError.
+Proof. vm_compute. reflexivity. Qed.
+Example ex_count : length all_cfgs = 2400.
 Proof. vm_compute. reflexivity. Qed.
